@@ -22,6 +22,70 @@ def is_ids_place_atoms(atoms):
     return "ids" in field_names(atoms, IDS_OWNER)
 
 
+def root_vars(body, pvn, op):
+    """user variables (debug locals) the operand is a borrow / copy / deref / as_slice of"""
+    if op.place is None:
+        return set()
+    out, work, seen_ = set(), [op.place.local], set()
+    while work:
+        l = work.pop()
+        if l in seen_:
+            continue
+        seen_.add(l)
+        if l in body.debug:
+            out.add(l)
+            continue
+        for k_, p_, d_ in pvn.defs(body).get(l, []):
+            if k_ == "call" and d_.callee.method in ("deref", "as_slice", "as_ref", "borrow") and d_.args and d_.args[0].place is not None:
+                work.append(d_.args[0].place.local)
+            elif k_ == "assign" and d_.rv["k"] == "ref":
+                work.append(d_.rv["place"].local)
+            elif k_ == "assign" and d_.rv["k"] == "use" and d_.rv["op"].place is not None:
+                work.append(d_.rv["op"].place.local)
+    return out
+
+
+def slice_end_of(body, pvn, op):
+    """('first'|'last', root variables) when the operand is the Option handed out by first() / last() of a slice"""
+    for a in pvn.of_operand(body, op):
+        if a[0] == "call" and a[3] == body.id and (a[1].endswith("::first") or a[1].endswith("::last")):
+            ct = body.blocks[a[4]].term
+            return ct.callee.method, frozenset(root_vars(body, pvn, ct.args[0])) if ct.args else frozenset()
+    return None
+
+
+def strict_range_guard(body, pvn, site_bb, first_roots, second_roots):
+    """is the block `site_bb` dominated by the edge on which  last(<first>) < first(<second>)  holds?  True / False (a non-strict or otherwise
+    wrong comparison of exactly these ends guards it) / None (no such comparison)"""
+    verdict = None
+    for cbi, ct in body.calls():
+        if ct.callee.method not in ("lt", "le", "gt", "ge") or len(ct.args) != 2:
+            continue
+        l_, r_ = slice_end_of(body, pvn, ct.args[0]), slice_end_of(body, pvn, ct.args[1])
+        if l_ is None or r_ is None:
+            continue
+        pos = positive_edges(body, pvn, cbi)
+        for sbi in sorted(body.reach):
+            x = body.blocks[sbi].term
+            if x.k != "switch":
+                continue
+            for tg in x.successors():
+                if not body.edge_dominates((sbi, tg), site_bb):
+                    continue
+                if not any(e[0] == sbi for e in pos):
+                    continue
+                holds = (sbi, tg) in pos
+                rel = {("lt", True): "<", ("le", True): "<=", ("gt", True): ">", ("ge", True): ">=", ("lt", False): ">=", ("le", False): ">", ("gt", False): "<=", ("ge", False): "<"}[(ct.callee.method, holds)]
+                a_, b_ = l_, r_
+                if rel in (">", ">="):
+                    a_, b_ = r_, l_
+                    rel = "<" if rel == ">" else "<="
+                if a_[0] == "last" and b_[0] == "first" and a_[1] and b_[1] and a_[1] <= first_roots and b_[1] <= second_roots:
+                    v = rel == "<"
+                    verdict = v if verdict is None else (verdict and v)
+    return verdict
+
+
 def run(ck, prog, ctx):
     ck.rule("TAINT", "source-to-sink: unchecked append sink reached only by iterated group elements (DESIGN 3.14)")
     ck.rule("DOM", "search-arm dominance and returned flag (DESIGN 3.6/3.10)")
@@ -395,6 +459,27 @@ def run(ck, prog, ctx):
                 if ordered:
                     ck.undecided("TAINT", "bulk-append/%s" % b.short, "%s appends a whole id vector to a non-empty group under an order comparison whose shape is not recognised (expected `last < first`)" % b.short, where=b.where(t.line))
                     continue
+            if verdict is None and b.kind in ("Fn", "AssocFn") and not b.exported and not b.reachable and not b.impl_trait and fresh_src and ctor_root and len(earlier) == 1 and earlier[0][1].callee.method in BULK and len(earlier[0][1].args) > 1:
+                # a private helper `concat(first, second)`: the order of its two parameters is its CALLERS' obligation - every call must stand under
+                # the strict  last(<first argument>) < first(<second argument>)
+                p_ = params_of(pvn.of_operand(b, earlier[0][1].args[1]), b.id)
+                q_ = params_of(pvn.of_operand(b, t.args[1]), b.id)
+                if len(p_) == 1 and len(q_) == 1 and p_ != q_:
+                    pi, qi = next(iter(p_)), next(iter(q_))
+                    sites_ = prog.callers_of(b.id)
+                    for cb_, cbi_, ct_ in sites_:
+                        if cb_.test or len(ct_.args) < max(pi, qi):
+                            continue
+                        fr, sr = root_vars(cb_, pvn, ct_.args[pi - 1]), root_vars(cb_, pvn, ct_.args[qi - 1])
+                        g_ = strict_range_guard(cb_, pvn, cbi_, fr, sr) if fr and sr else None
+                        key_ = "bulk-append/%s/caller/%s/%d" % (b.short, cb_.short, len([1 for x1, x2, x3 in sites_ if x1 is cb_ and x2 < cbi_]))
+                        nm_ = "%s(%s, %s)" % (b.name, "/".join(cb_.local_name(x) for x in sorted(fr)) or "?", "/".join(cb_.local_name(x) for x in sorted(sr)) or "?")
+                        if g_ is None:
+                            ck.ob("TAINT", key_, False, "%s calls %s, which appends its second slice behind the first, without a dominating test last(first) < first(second)" % (cb_.short, nm_), where=cb_.where(ct_.line))
+                        else:
+                            ck.ob("TAINT", key_, g_, "%s calls %s under last(first) %s first(second)%s" % (cb_.short, nm_, "<" if g_ else "<=", "" if g_ else ": when the two ids are EQUAL the id is stored twice"), where=cb_.where(ct_.line))
+                    if sites_:
+                        continue
             ck.ob("TAINT", "bulk-append/%s" % b.short, bool(verdict), "%s appends a whole id vector to a non-empty group, %s" % (b.short, how), where=b.where(t.line))
     # whole-vector constructions: `HpoGroup { ids: <something built from caller data> }` is only sorted and duplicate free
     # if the data was sorted and THEN deduplicated before it is stored
@@ -668,35 +753,8 @@ def run(ck, prog, ctx):
         loops_ = [lp for lp in _fl(ob_)]
         heads = {lp["header"] for lp in loops_}
 
-        def recv_root(op, depth=0):
-            """user variable the slice that `first()` / `last()` is taken of belongs to, through deref / as_slice / field borrows"""
-            if op.place is None:
-                return set()
-            out, work, seen_ = set(), [op.place.local], set()
-            while work:
-                l = work.pop()
-                if l in seen_:
-                    continue
-                seen_.add(l)
-                if l in ob_.debug:
-                    out.add(l)
-                    continue
-                for k_, p_, d_ in pvn.defs(ob_).get(l, []):
-                    if k_ == "call" and d_.callee.method in ("deref", "as_slice", "as_ref", "borrow") and d_.args and d_.args[0].place is not None:
-                        work.append(d_.args[0].place.local)
-                    elif k_ == "assign" and d_.rv["k"] == "ref":
-                        work.append(d_.rv["place"].local)
-                    elif k_ == "assign" and d_.rv["k"] == "use" and d_.rv["op"].place is not None:
-                        work.append(d_.rv["op"].place.local)
-            return out
-
-        def end_of(op):
-            """('first'|'last', root locals) when the operand is the Option handed out by first() / last() of a slice"""
-            for a in pvn.of_operand(ob_, op):
-                if a[0] == "call" and a[3] == ob_.id and (a[1].endswith("]>::first") or a[1].endswith("]>::last") or a[1].endswith("::first") or a[1].endswith("::last")):
-                    ct = ob_.blocks[a[4]].term
-                    return ct.callee.method, frozenset(recv_root(ct.args[0])) if ct.args else frozenset()
-            return None
+        recv_root = lambda op: root_vars(ob_, pvn, op)
+        end_of = lambda op: slice_end_of(ob_, pvn, op)
         n_by = 0
         for sbi in sorted(ob_.reach):
             x = ob_.blocks[sbi].term
@@ -757,6 +815,7 @@ def run(ck, prog, ctx):
         b = prog.body(T + name)
         if not ck.anchor("ROLE", "HpoTerm::" + name, b):
             continue
+        b0 = b
         ops = operator_calls(b)
         if not ops:
             # a thin delegate of a sibling query (`all_union_ancestor_ids` -> `union_ancestor_ids(other)`): the sibling's body decides
@@ -810,8 +869,19 @@ def run(ck, prog, ctx):
         ck.ob("ROLE", name + "/operands", ok, "%s operates on (%s, %s)%s" % (name, sorted(b.local_name(p) for p in p0), sorted(b.local_name(p) for p in p1), "" if ok else ": not one set of each term"), where=b.where(t.line))
         okf = "all_parents" in f0 and "all_parents" in f1 and "parents" not in f0 and "parents" not in f1 and "children" not in (f0 | f1)
         ck.ob("ROLE", name + "/closure", okf, "%s reads %s / %s (expected the closure sets `all_parents` of both terms)" % (name, sorted(f0), sorted(f1)), where=b.where(t.line))
-        if need_ids is True and not ("id" in f0 and "id" in f1) and any(t2.callee.method == "insert" and len(t2.args) == 2 and "id" in field_names(pv.of_operand(b, t2.args[1]), "HpoTerm") for _, t2 in b.calls()):
-            ck.undecided("ROLE", name + "/ids", "%s intersects the exclusive sets and inserts the terms' own ids afterwards (under membership tests): the distributive form is not evaluated" % name, where=b.where(t.line))
+        own_inserts = [(bi2, t2) for bi2, t2 in b0.calls() if t2.callee.method == "insert" and len(t2.args) == 2 and "id" in field_names(pv.of_operand(b0, t2.args[1]), "HpoTerm")]
+        if need_ids is True and not ("id" in f0 and "id" in f1) and own_inserts:
+            # distributive form:  (A & B) + [a if a is in B+b] + [b if b is in A+a].  Whether the guards are the right membership tests is not evaluated;
+            # what IS decided: each guarded insert is reached by every path that returns (its guard is evaluated, no early return in front of it)
+            ck.undecided("ROLE", name + "/ids", "%s intersects the exclusive sets and inserts the terms' own ids afterwards (under membership tests): the distributive form is not evaluated" % name, where=b0.where(t.line))
+            for n_i, (bi2, t2) in enumerate(own_inserts):
+                guards_ = [gbi for gbi, gt in b0.calls() if gbi != bi2 and any(b0.edge_dominates(e_, bi2) for e_ in positive_edges(b0, pvn, gbi))]
+                if not guards_:
+                    continue
+                g_ = guards_[-1]
+                reached = all(b0.dominates(g_, e_) for e_ in b0.exits)
+                who = sorted(b0.local_name(p_) for p_ in params_of(pv.of_operand(b0, t2.args[1]), b0.id))
+                ck.ob("ROLE", "%s/ids/insert/%d" % (name, n_i), reached, "%s: the test that decides whether %s's own id is added %s" % (name, "/".join(who) or "a term", "is evaluated on every path" if reached else "is SKIPPED by an early return: for a term without common strict ancestors (the root) its own id is missing from the inclusive set"), where=b0.where(t2.line))
         elif need_ids is True:
             ck.ob("ROLE", name + "/ids", "id" in f0 and "id" in f1, "%s adds %s (expected both terms' own ids)" % (name, sorted((f0 | f1) & {"id"}) or "no id"), where=b.where(t.line))
         elif need_ids is False:
